@@ -409,6 +409,105 @@ Section C03_uniform_selection.
   Proof. exact (candw_matches_model leap joint noturn flt sub1000 alpha1 aadd take2 logu). Qed.
 End C03_uniform_selection.
 
+(* ---- draw grammar of a NUTS chain (Model/NUTSEval.v: nuts_transition_kinds, nuts_run_kinds): the
+   kinds of variates the chain takes from its own generator, in order (0 = standard normal,
+   1 = Exp(1), 2 = uniform in T, 3 = uniform f64).  A transition with per-doubling merge counts ms
+   takes d normals, one Exp(1), two T-uniforms per doubling (direction, acceptance) and one f64
+   uniform per merge, and nothing else; a run takes d normals first and then its transitions. ---- *)
+From Coq Require Import ZArith.
+From MiniMcmc Require Import Proofs.Draws.
+Close Scope Q_scope.
+Close Scope R_scope.
+Close Scope Z_scope.
+Close Scope N_scope.
+Local Open Scope nat_scope.
+
+Theorem C03_draw_grammar : forall (d : nat) (ms : list nat),
+  length (nuts_transition_kinds d ms) = d + 1 + fold_right (fun m acc => m + 2 + acc) 0 ms /\
+  count_occ Z.eq_dec (nuts_transition_kinds d ms) 0%Z = d /\
+  count_occ Z.eq_dec (nuts_transition_kinds d ms) 1%Z = 1 /\
+  count_occ Z.eq_dec (nuts_transition_kinds d ms) 2%Z = 2 * length ms /\
+  count_occ Z.eq_dec (nuts_transition_kinds d ms) 3%Z = fold_right Nat.add 0 ms /\
+  (forall x, In x (nuts_transition_kinds d ms) -> (x = 0 \/ x = 1 \/ x = 2 \/ x = 3)%Z).
+Proof.
+  intros d ms.
+  exact (conj (nuts_transition_kinds_length d ms)
+        (conj (nuts_transition_kinds_count0 d ms)
+        (conj (nuts_transition_kinds_count1 d ms)
+        (conj (nuts_transition_kinds_count2 d ms)
+        (conj (nuts_transition_kinds_count3 d ms) (nuts_transition_kinds_alphabet d ms)))))).
+Qed.
+
+Theorem C03_draw_grammar_run : forall (d : nat) (trs : list (list nat)),
+  length (nuts_run_kinds d trs)
+    = d + fold_right (fun ms acc => (d + 1 + fold_right (fun m acc' => m + 2 + acc') 0 ms) + acc) 0 trs /\
+  count_occ Z.eq_dec (nuts_run_kinds d trs) 0%Z = d + d * length trs /\
+  count_occ Z.eq_dec (nuts_run_kinds d trs) 1%Z = length trs /\
+  count_occ Z.eq_dec (nuts_run_kinds d trs) 2%Z = 2 * list_sum (map (@length nat) trs) /\
+  count_occ Z.eq_dec (nuts_run_kinds d trs) 3%Z = list_sum (map (fold_right Nat.add 0) trs).
+Proof. intros d trs. exact (conj (nuts_run_kinds_length d trs) (nuts_run_kinds_counts d trs)). Qed.
+
+(* link to the tree model (Model/NUTS.v): the kind-3 entries are the uniforms build_tree consumes *)
+Section C03_draws.
+  Context {P F A U : Type}.
+  Variable leap : bool -> P -> P.
+  Variable joint : P -> F.
+  Variable noturn : P -> P -> bool.
+  Variable flt : F -> F -> bool.
+  Variable sub1000 : F -> F.
+  Variable alpha1 : P -> A.
+  Variable aadd : A -> A -> A.
+  Variable take2 : U -> nat -> nat -> bool.
+  Variable logu : F.
+  Variable accept_top : U -> nat -> nat -> bool.
+
+  (* a call of depth j consumes a prefix of the supplied f64 uniforms, one per merge: (leaves
+     visited) - 1 of them, at most 2^j - 1, and exactly 2^j - 1 when the sub-tree did not stop *)
+  Theorem C03_tree_draws : forall j z v us t us',
+    build_tree leap joint noturn flt sub1000 alpha1 aadd take2 logu j z v us = Some (t, us') ->
+    exists used, us = used ++ us' /\ length used = tnalpha t - 1 /\
+      length used <= 2 ^ j - 1 /\ (ts t = true -> length used = 2 ^ j - 1).
+  Proof. exact (build_tree_merges leap joint noturn flt sub1000 alpha1 aadd take2 logu). Qed.
+
+  (* a successful transition realises the grammar.  It consumes a prefix of each of its three supplies
+     (directions, tree uniforms, acceptance uniforms); the directions consumed are the recorded ones;
+     with ms the per-doubling merge counts (leaves visited - 1), the T-uniforms consumed (directions +
+     acceptance uniforms) number the kind-2 entries and the f64 uniforms consumed number the kind-3
+     entries of nuts_transition_kinds d ms, so together with the d normals and the Exp(1) drawn before
+     the loop the transition draws as many variates as the grammar lists; and ms is
+     1 - 1, 2 - 1, 4 - 1, ..., 2^i - 1, ... for every doubling but the last, whose count is at most
+     2^i - 1 (equal if it did not stop). *)
+  Theorem C03_transition_draws : forall (d : nat) fuel z0 dirs tus accs st recs dr tr ar,
+    transition leap joint noturn flt sub1000 alpha1 aadd take2 logu accept_top fuel z0 dirs tus accs
+      = Some (st, recs, dr, tr, ar) ->
+    exists tu au,
+      dirs = map d_dir recs ++ dr /\ tus = tu ++ tr /\ accs = au ++ ar /\
+      length (map d_dir recs) + length au =
+        count_occ Z.eq_dec (nuts_transition_kinds d (map (fun r => tnalpha (d_tree r) - 1) recs)) 2%Z /\
+      length tu =
+        count_occ Z.eq_dec (nuts_transition_kinds d (map (fun r => tnalpha (d_tree r) - 1) recs)) 3%Z /\
+      d + 1 + length (map d_dir recs) + length tu + length au =
+        length (nuts_transition_kinds d (map (fun r => tnalpha (d_tree r) - 1) recs)) /\
+      (exists mlast, map (fun r => tnalpha (d_tree r) - 1) recs =
+           map (fun i => 2 ^ i - 1) (seq 0 (length recs - 1)) ++ [mlast] /\
+         mlast <= 2 ^ (length recs - 1) - 1) /\
+      (forall i r, nth_error recs i = Some r -> ts (d_tree r) = true ->
+         tnalpha (d_tree r) - 1 = 2 ^ i - 1).
+  Proof.
+    exact (transition_draws leap joint noturn flt sub1000 alpha1 aadd take2 logu accept_top).
+  Qed.
+End C03_draws.
+
+(* d = 2, three doublings with 0, 1 and 3 merges: 2 normals, the Exp(1), then per doubling a direction
+   uniform, the merge uniforms and the acceptance uniform; a run of two transitions starts with 2 more
+   normals *)
+Example C03_draw_grammar_concrete :
+  nuts_transition_kinds 2 [0; 1; 3] = [0; 0; 1; 2; 2; 2; 3; 2; 2; 3; 3; 3; 2]%Z /\
+  count_occ Z.eq_dec (nuts_transition_kinds 2 [0; 1; 3]) 3%Z = 4 /\
+  count_occ Z.eq_dec (nuts_transition_kinds 2 [0; 1; 3]) 2%Z = 6 /\
+  nuts_run_kinds 2 [[0]; [0; 1]] = [0; 0; 0; 0; 1; 2; 2; 0; 0; 1; 2; 2; 2; 3; 2]%Z.
+Proof. vm_compute. repeat split. Qed.
+
 Print Assumptions C03_leaves.
 Print Assumptions C03_counts.
 Print Assumptions C03_not_stopped_no_uturn.
@@ -429,3 +528,7 @@ Print Assumptions C03_next_state.
 Print Assumptions C03_uniform.
 Print Assumptions C03_uniform_total.
 Print Assumptions C03_uniform_matches_model.
+Print Assumptions C03_draw_grammar.
+Print Assumptions C03_draw_grammar_run.
+Print Assumptions C03_tree_draws.
+Print Assumptions C03_transition_draws.
